@@ -315,6 +315,60 @@ fn bystander_scenario() -> ScenFn {
     })
 }
 
+/// One request covering 1500 deliveries, abandoned after k polls: all of it took effect or none of it.
+fn large_batch_scenario() -> ScenFn {
+    scen!(|cx| {
+        let a = cx.api.clone();
+        const N: usize = 1500;
+        must!(cx, "setup:create-topic", { let a = a.clone(); async move { a.create_topic(T0).await } });
+        must!(cx, "setup:create-sub", { let a = a.clone(); async move { a.create_sub(S0, T0, 10, None).await } });
+        must!(cx, "setup:publish", { let a = a.clone(); async move { a.publish(T0, (0..N).map(|i| (format!("{}", i).into_bytes(), vec![])).collect()).await } });
+        let held = must!(cx, "setup:pull", { let a = a.clone(); async move { a.pull(S0, 2000, true).await } });
+        if held.len() != N {
+            return ScenarioOut::viol("setup/pull", format!("pulled {} of {}", held.len(), N));
+        }
+        let ids: Vec<String> = held.iter().map(|m| m.ack_id.clone()).collect();
+        let kind = cx.choose("request", 4);
+        let k = cx.choose("abandon-after-polls", 8);
+        let (a2, ids2) = (a.clone(), ids.clone());
+        let h = cx.spawn("client:1-victim", async move {
+            match kind {
+                0 => { let _ = a2.ack(S0, ids2).await; }
+                1 => { let _ = a2.modify(S0, ids2, 60).await; }
+                2 => { let _ = a2.modify(S0, ids2, 0).await; }
+                _ => {
+                    let (tx, r) = a2.streaming_pull(first_stream_req(S1, 1)).await;
+                    let _ = (tx, r);
+                }
+            }
+        });
+        if kind == 3 {
+            // (placeholder kind: a stream on an unknown subscription - exercises the abort path only)
+        }
+        if k < 7 {
+            tryv!(cx.quiesce_until_polls("client:1-victim", k as u32).await);
+            cx.abort_now(&h).await;
+        }
+        tryv!(cx.quiesce().await);
+        let case = format!("{} of {} ids abandoned after {} polls", ["Acknowledge", "ModifyAckDeadline(60)", "ModifyAckDeadline(0)", "noop"][kind], N, k);
+        let st = tryv!(cx.stats(S0).await).unwrap();
+        if st.backlog + st.outstanding != N && !(kind == 0 && st.backlog + st.outstanding == 0) {
+            return ScenarioOut::viol("half-done/large-batch-partially-applied", format!("{}: right afterwards the subscription holds backlog={} outstanding={}", case, st.backlog, st.outstanding));
+        }
+        if kind == 2 && st.backlog != 0 && st.backlog != N {
+            return ScenarioOut::viol("half-done/large-batch-partially-applied", format!("{}: {} of {} messages were nacked", case, st.backlog, N));
+        }
+        // 15 s later (past the original 10 s deadline, before an extended one)
+        tryv!(cx.advance_ms(15_000).await);
+        let st = tryv!(cx.stats(S0).await).unwrap();
+        let back = st.backlog;
+        if back != 0 && back != N {
+            return ScenarioOut::viol("half-done/large-batch-partially-applied", format!("{}: 15 s later {} of {} messages are back in the backlog (neither none nor all)", case, back, N));
+        }
+        ScenarioOut { sample: Some(case), ..ScenarioOut::ok(format!("kind={} k={} back={}", kind, k, back.min(1))) }
+    })
+}
+
 pub fn units(thorough: bool) -> Vec<Unit> {
     let d = if thorough { 3 } else { 1 };
     vec![
@@ -331,6 +385,13 @@ pub fn units(thorough: bool) -> Vec<Unit> {
             Bounds::new(d + 1),
             ExecCfg::default(),
             bystander_scenario(),
+        ),
+        explore_unit(
+            "crash/large-batch",
+            "Acknowledge / ModifyAckDeadline(60) / ModifyAckDeadline(0) covering 1500 deliveries, caller dropped after k polls (every k): right afterwards and 15 s later either all of them or none are affected",
+            Bounds::new(0),
+            ExecCfg { max_steps: 200_000, ..Default::default() },
+            large_batch_scenario(),
         ),
         explore_unit(
             "crash/saturated",
